@@ -11,6 +11,7 @@
     - z2s_kernel on one column:
         3 :: exact :: N :: P :: column (2N) :: P blocks of  Z(2) :: observed K :: observed A(2)
     - verdict of an [interval]-checked s_stretch goal file (see c12.py):  4 :: ok
+    - several of the above belonging to one generated set-up:  0 :: len1 :: case1 ++ len2 :: case2 ++ ...
     exact = 1: inputs are dyadic with few bits so every float operation of the code is exact and the
     comparison is [Qeq_bool]; exact = 0: [close 1e-9]. K is always compared exactly. *)
 From Coq Require Import ZArith QArith List Bool.
@@ -100,7 +101,7 @@ Fixpoint check_depths (p : nat) (exact : bool) (zr : list Q) (l : list Z) : bool
       end
   end.
 
-Definition check_case (c : list Z) : bool :=
+Definition check_one (c : list Z) : bool :=
   match c with
   | 1 :: vt :: st :: ex :: hcn :: hcd :: N :: M :: rest =>
       match takeQ (Z.to_nat N) rest with
@@ -121,4 +122,21 @@ Definition check_case (c : list Z) : bool :=
       end
   | [4; ok] => ok =? 1
   | _ => false
+  end.
+
+(** a bundle of cases; every step consumes at least the length field, so [length l] is enough fuel *)
+Fixpoint check_multi (fuel : nat) (l : list Z) : bool :=
+  match fuel with
+  | O => false
+  | S f =>
+      match l with
+      | [] => true
+      | n :: r => check_one (firstn (Z.to_nat n) r) && check_multi f (skipn (Z.to_nat n) r)
+      end
+  end.
+
+Definition check_case (c : list Z) : bool :=
+  match c with
+  | 0 :: r => check_multi (S (length r)) r
+  | _ => check_one c
   end.
